@@ -38,6 +38,19 @@ enum FileState {
     /// A complete, valid zone plus one record of another class (CH in an IN
     /// zone): the zone store rejects that record, so the file is not loadable.
     ForeignClass,
+    /// Generation 1 / 2 with the name server's address record in the included
+    /// file `s.inc` (include family only): loadable iff that file is good.
+    V1Inc,
+    V2Inc,
+}
+
+/// State of the included file `s.inc` (include family). Its good content is
+/// always the same, so it decides only whether the including file loads.
+#[derive(Clone, Copy, Debug, PartialEq, Eq, Hash, PartialOrd, Ord)]
+enum IncState {
+    Missing,
+    Good,
+    Bad,
 }
 
 const FILE_STATES: [FileState; 8] =
@@ -48,6 +61,39 @@ enum Event {
     /// bit i set = zone i configured
     Configure(u8),
     File(usize, FileState),
+    Inc(IncState),
+}
+
+/// The include family's alphabet: zones p. and s. only; s.zone with and
+/// without `$INCLUDE s.inc`; the included file good / broken / missing. The
+/// cause of a load failure can lie outside the zone's own file, and be
+/// repaired without touching that file.
+fn inc_events() -> Vec<Event> {
+    vec![
+        Event::Inc(IncState::Bad),
+        Event::Inc(IncState::Good),
+        Event::Inc(IncState::Missing),
+        Event::File(2, FileState::V1Inc),
+        Event::File(2, FileState::V2Inc),
+        Event::File(2, FileState::V2),
+        Event::File(2, FileState::Missing),
+        Event::File(0, FileState::V1),
+        Event::File(0, FileState::Syntax),
+        Event::Configure(0b001),
+        Event::Configure(0b101),
+    ]
+}
+
+/// Index space of recorded histories: the main alphabet followed by the
+/// include family's.
+fn all_events() -> Vec<Event> {
+    let mut v = events();
+    for e in inc_events() {
+        if !v.contains(&e) {
+            v.push(e);
+        }
+    }
+    v
 }
 
 fn events() -> Vec<Event> {
@@ -67,6 +113,7 @@ fn event_json(e: &Event) -> Value {
     match e {
         Event::Configure(m) => json!({"configure": (0..3).filter(|i| m & (1 << i) != 0).map(|i| ZONES[i]).collect::<Vec<_>>()}),
         Event::File(z, s) => json!({"file": FILES[*z], "state": format!("{s:?}")}),
+        Event::Inc(s) => json!({"file": "s.inc", "state": format!("{s:?}")}),
     }
 }
 
@@ -92,6 +139,13 @@ fn file_text(zone: usize, s: FileState) -> Option<String> {
         // An error-class issue (in-zone name server without an address) next
         // to the same warning-class issue.
         FileState::ForeignClass => Some(format!("{}www CH TXT \"other class\"\n", zone_text(zone, 4))),
+        FileState::V1Inc | FileState::V2Inc => {
+            let gen = if s == FileState::V1Inc { 1 } else { 2 };
+            Some(format!(
+                "$ORIGIN {origin}\n$TTL 60\n@ IN SOA ns admin {gen} 3600 600 86400 60\n@ NS ns\n@ TXT \"zone={zone} gen={gen}\"\n$INCLUDE s.inc\n",
+                origin = ZONES[zone]
+            ))
+        }
         FileState::InvalidAndWarned => Some(format!(
             "$ORIGIN {}\n$TTL 60\n@ IN SOA ns admin 8 3600 600 86400 60\n@ NS ns\n@ MX 10 mx\n@ TXT \"zone=broken-and-warned\"\n",
             ZONES[zone]
@@ -99,8 +153,10 @@ fn file_text(zone: usize, s: FileState) -> Option<String> {
     }
 }
 
-fn loadable(s: FileState) -> Option<u8> {
+fn loadable(s: FileState, inc: IncState) -> Option<u8> {
     match s {
+        FileState::V1Inc if inc == IncState::Good => Some(1),
+        FileState::V2Inc if inc == IncState::Good => Some(2),
         FileState::V1 => Some(1),
         FileState::V2 => Some(2),
         FileState::Warned => Some(3),
@@ -115,19 +171,20 @@ struct World {
     mtime_counter: u64,
     configured: u8,
     files: [FileState; 3],
+    inc: IncState,
 }
 
 /// Reference model: per zone, None = not configured; Some(None) = configured
 /// but never loaded (SERVFAIL); Some(Some(g)) = serving generation g.
 type Model = [Option<Option<u8>>; 3];
 
-fn model_step(model: &Model, configured: u8, files: &[FileState; 3]) -> Model {
+fn model_step(model: &Model, configured: u8, files: &[FileState; 3], inc: IncState) -> Model {
     let mut next: Model = [None; 3];
     for z in 0..3 {
         if configured & (1 << z) == 0 {
             continue; // removed from the configuration: no longer served
         }
-        next[z] = Some(match loadable(files[z]) {
+        next[z] = Some(match loadable(files[z], inc) {
             Some(g) => Some(g),
             // load failed: previously served data, if this zone itself had any
             None => model[z].unwrap_or(None),
@@ -176,7 +233,7 @@ impl World {
         let _ = std::fs::remove_dir_all(&dir);
         std::fs::create_dir_all(&dir).expect("scratch dir");
         let daemon = verif_access::Daemon { config_path: dir.join("quandary.toml"), server: Arc::new(Server::new(Arc::new(Catalog::new()))), catalog: Arc::new(Catalog::new()) };
-        World { dir, daemon, mtime_counter: 0, configured: 0, files: [FileState::Missing; 3] }
+        World { dir, daemon, mtime_counter: 0, configured: 0, files: [FileState::Missing; 3], inc: IncState::Missing }
     }
 
     fn config_path(&self) -> PathBuf {
@@ -216,6 +273,25 @@ impl World {
         self.files[z] = st;
     }
 
+    fn write_inc(&mut self, st: IncState) {
+        let p = self.dir.join("s.inc");
+        let text = match st {
+            IncState::Missing => {
+                let _ = std::fs::remove_file(&p);
+                self.inc = st;
+                return;
+            }
+            IncState::Good => "ns A 192.0.2.9\n",
+            IncState::Bad => "ns A (\nthis is not a zone file \"\n",
+        };
+        std::fs::write(&p, text).expect("write included file");
+        self.mtime_counter += 1;
+        let t = SystemTime::UNIX_EPOCH + Duration::from_secs(1_600_000_000 + self.mtime_counter);
+        let f = std::fs::File::options().write(true).open(&p).expect("open included file");
+        f.set_modified(t).expect("set mtime");
+        self.inc = st;
+    }
+
     fn start(&mut self) -> Result<(), String> {
         self.write_config();
         let cp = self.config_path();
@@ -230,6 +306,7 @@ impl World {
                 self.write_config();
             }
             Event::File(z, s) => self.write_file(*z, *s),
+            Event::Inc(s) => self.write_inc(*s),
         }
         // The SIGHUP arm logs reload errors and carries on; so does this.
         verif_access::sighup(&mut self.daemon);
@@ -285,7 +362,7 @@ struct Totals {
 }
 
 /// Runs one history; returns false on violation.
-fn run_history(l: &mut Local, dir: &Path, hist: &[Event], totals: &Totals, states: &mut BTreeSet<(u8, [FileState; 3], Model)>) {
+fn run_history(l: &mut Local, dir: &Path, hist: &[Event], totals: &Totals, states: &mut BTreeSet<(u8, [FileState; 3], IncState, Model)>) {
     let mut w = World::new(dir.to_path_buf());
     let case = || json!({"history": hist.iter().map(event_json).collect::<Vec<_>>(), "history_idx": hist.iter().map(event_index).collect::<Vec<_>>()});
     if let Err(e) = w.start() {
@@ -302,9 +379,9 @@ fn run_history(l: &mut Local, dir: &Path, hist: &[Event], totals: &Totals, state
             l.violation("reload-returned-error", j);
             return;
         }
-        model = model_step(&model, w.configured, &w.files);
+        model = model_step(&model, w.configured, &w.files, w.inc);
         totals.transitions.fetch_add(1, Ordering::Relaxed);
-        states.insert((w.configured, w.files, model));
+        states.insert((w.configured, w.files, w.inc, model));
         l.tick();
         let mut class = String::new();
         for probe in PROBES {
@@ -341,7 +418,7 @@ fn run_history(l: &mut Local, dir: &Path, hist: &[Event], totals: &Totals, state
 }
 
 fn event_index(e: &Event) -> usize {
-    events().iter().position(|x| x == e).unwrap()
+    all_events().iter().position(|x| x == e).unwrap()
 }
 
 pub fn run(ctx: Ctx) -> ! {
@@ -349,10 +426,11 @@ pub fn run(ctx: Ctx) -> ! {
     let root = scratch_root();
     let totals = Totals { transitions: AtomicU64::new(0), histories: AtomicU64::new(0) };
     let all_states = std::sync::Mutex::new(BTreeSet::new());
-    let rule = "every sequence of <= d events (d = 4 quick, 5 thorough) over {set configured subset of {p., c.p., s.} (8), set one zone file to missing / valid v1 / valid v2 / syntax error / validation error / valid with a validation warning (v3) / validation error together with a warning / valid but for one record of another class (24)}, a reload after each, executed from scratch on a real directory through the daemon's config::load_from_path -> zones::reload -> Server::set_catalog (no state merging: entry metadata - path, mtime - is hidden state); after every step 6 probe names are queried through Server::handle_message and compared with the reference model (longest configured suffix; new data if the file loads and validates, else this zone's previous data, else SERVFAIL; unconfigured => not served). states = distinct (configuration, files, model) states reached, transitions = reload steps executed, traces_validated_against_impl = histories executed";
+    let rule = "every sequence of <= d events (d = 4 quick, 5 thorough) over {set configured subset of {p., c.p., s.} (8), set one zone file to missing / valid v1 / valid v2 / syntax error / validation error / valid with a validation warning (v3) / validation error together with a warning / valid but for one record of another class (24)}, a reload after each, executed from scratch on a real directory through the daemon's config::load_from_path -> zones::reload -> Server::set_catalog (no state merging: entry metadata - path, mtime - is hidden state); after every step 6 probe names are queried through Server::handle_message and compared with the reference model (longest configured suffix; new data if the file loads and validates, else this zone's previous data, else SERVFAIL; unconfigured => not served). plus the include family: s.zone with its name server's address in an $INCLUDEd file, over {included file good / broken / missing, s.zone v1 / v2 with the include, v2 without, missing, p.zone valid / syntax error, configure {p.} / {p., s.}} (11), every sequence of <= d2 events (3 quick, 5 thorough) from the empty start and from the start where s. is loaded through a good include; states = distinct (configuration, files, included file, model) states reached, transitions = reload steps executed, traces_validated_against_impl = histories executed";
     if let Some(case) = ctx.replay_case() {
         let idx: Vec<usize> = case["history_idx"].as_array().or_else(|| case["case"]["history_idx"].as_array()).expect("history_idx").iter().map(|v| v.as_u64().unwrap() as usize).collect();
-        let hist: Vec<Event> = idx.iter().map(|i| evs[*i]).collect();
+        let all = all_events();
+        let hist: Vec<Event> = idx.iter().map(|i| all[*i]).collect();
         let mut l = ctx.local();
         let mut st = BTreeSet::new();
         run_history(&mut l, &root.join("replay"), &hist, &totals, &mut st);
@@ -398,6 +476,49 @@ pub fn run(ctx: Ctx) -> ! {
         let _ = std::fs::remove_dir_all(&dir);
         all_states.lock().unwrap().extend(states);
     });
+    // ---- include family: from two starting points (nothing configured or
+    // loaded; p. and s. configured and s. loaded through a good include),
+    // every sequence of <= d2 events of its alphabet.
+    let ievs = inc_events();
+    let starts: [&[Event]; 2] = [&[], &[Event::Configure(0b101), Event::Inc(IncState::Good), Event::File(2, FileState::V1Inc)]];
+    let d2 = ctx.pick(3, 5);
+    let mut iprefixes: Vec<(usize, usize)> = Vec::new();
+    for si in 0..starts.len() {
+        for a in 0..ievs.len() {
+            iprefixes.push((si, a));
+        }
+    }
+    let inc_histories = AtomicU64::new(0);
+    ctx.par_for_each(&iprefixes, |l, (si, a)| {
+        let dir = root.join(format!("i{}", counter.fetch_add(1, Ordering::Relaxed)));
+        let mut states = BTreeSet::new();
+        let rest = d2 - 1;
+        let mut idx = vec![0usize; rest];
+        loop {
+            let mut hist: Vec<Event> = starts[*si].to_vec();
+            hist.push(ievs[*a]);
+            hist.extend(idx.iter().map(|i| ievs[*i]));
+            run_history(l, &dir, &hist, &totals, &mut states);
+            inc_histories.fetch_add(1, Ordering::Relaxed);
+            let mut k = rest;
+            let mut done = true;
+            while k > 0 {
+                k -= 1;
+                idx[k] += 1;
+                if idx[k] < ievs.len() {
+                    done = false;
+                    break;
+                }
+                idx[k] = 0;
+            }
+            if done {
+                break;
+            }
+        }
+        let _ = std::fs::remove_dir_all(&dir);
+        all_states.lock().unwrap().extend(states);
+    });
+    ctx.set_extra("include_family", json!({"alphabet_size": ievs.len(), "depth_after_start": d2, "starting_points": starts.len(), "histories": inc_histories.load(Ordering::Relaxed)}));
     let _ = std::fs::remove_dir_all(&root);
     ctx.set_extra("states", json!(all_states.lock().unwrap().len()));
     ctx.set_extra("transitions", json!(totals.transitions.load(Ordering::Relaxed)));
